@@ -176,7 +176,19 @@ func (te *TimerEntry) run(ctx context.Context) error {
 }
 
 func (ts *Timers) changed() {
-	ts.c.change(TimersMachine).State = ts.State()
+	// Report the timers machine's whole state (not just the
+	// timers): a store that applies this change has to end up
+	// with what the machine really has.
+	st := ts.State()
+	if m, have := ts.c.Machines[TimersMachine]; have && m.State != nil {
+		st.NodeName = m.State.NodeName
+		for p, v := range m.State.Bs {
+			if _, have := st.Bs[p]; !have {
+				st.Bs[p] = v
+			}
+		}
+	}
+	ts.c.change(TimersMachine).State = st
 }
 
 func (ts *Timers) cancel(ctx context.Context, id string) error {
